@@ -18,12 +18,13 @@ ASSUMPTIONS = [
 COSTS = ["L2Cost", "GaussianVarCost", "GaussianCovCost", "L1Cost"]
 
 
-def make_cost(name, param=None):
+def make_cost(name, param=None, extra=None):
+    """`extra`: value of the user cost's additional hyper-parameter (ignored by built-in costs)."""
     if name == "L1Cost":
         from userdefs.scorers import L1Cost
 
         p = None if param is None else param["mean"]
-        return L1Cost(p if p is None or not isinstance(p, list) else list(p))
+        return L1Cost(p if p is None or not isinstance(p, list) else list(p), 1.0 if extra is None else extra)
     return c01.build_cost(name, param)
 
 
@@ -83,7 +84,8 @@ def base_case(draw, tier, kind, costs=COSTS):
         cuts = [draw(cut4(n, ms)) for _ in range(min(k, 4))]
     else:
         cuts = draw(c01.intervals(n, ms, max_batch=8))
-    return {"cost": cost, "X": X, "cuts": cuts, "container": draw(st.sampled_from(["ndarray", "DataFrame"]))}
+    return {"cost": cost, "X": X, "cuts": cuts, "container": draw(st.sampled_from(["ndarray", "DataFrame"])),
+            "extra": draw(st.sampled_from([2.5, 1.0, 0.5])) if cost == "L1Cost" else None}
 
 
 def evaluate_or_none(scorer, cuts):
@@ -128,9 +130,9 @@ def check_change(case):
     X = np.asarray(case["X"], dtype=float)
     cuts = case["cuts"]
     Xc = to_container(X, case["container"])
-    fresh = make_cost(case["cost"], case["param"]).fit(X)
+    fresh = make_cost(case["cost"], case["param"], case.get("extra")).fit(X)
     with sut("ChangeScore(cost).fit"):
-        sc = ChangeScore(make_cost(case["cost"], case["param"])).fit(Xc)
+        sc = ChangeScore(make_cost(case["cost"], case["param"], case.get("extra"))).fit(Xc)
     want, scales = [], []
     for s, k, e in cuts:
         parts = evaluate_or_none(fresh, [[s, e], [s, k], [k, e]])
@@ -184,10 +186,10 @@ def check_saving(case):
     X = np.asarray(case["X"], dtype=float)
     cuts = case["cuts"]
     Xc = to_container(X, case["container"])
-    base = make_cost(case["cost"], case["param"]).fit(X)
-    opt = make_cost(case["cost"], None).fit(X)
+    base = make_cost(case["cost"], case["param"], case.get("extra")).fit(X)
+    opt = make_cost(case["cost"], None, case.get("extra")).fit(X)
     with sut("Saving(cost).fit"):
-        sv = Saving(make_cost(case["cost"], case["param"])).fit(Xc)
+        sv = Saving(make_cost(case["cost"], case["param"], case.get("extra"))).fit(Xc)
     b_rows = evaluate_or_none(base, cuts)
     o_rows = evaluate_or_none(opt, cuts)
     want = [None if (b is None or o is None) else b - o for b, o in zip(b_rows, o_rows)]
@@ -223,14 +225,14 @@ def check_local(case):
     X = np.asarray(case["X"], dtype=float)
     cuts = case["cuts"]
     Xc = to_container(X, case["container"])
-    fresh = make_cost(case["cost"], None).fit(X)
+    fresh = make_cost(case["cost"], None, case.get("extra")).fit(X)
     with sut("LocalAnomalyScore(cost).fit"):
-        sc = LocalAnomalyScore(make_cost(case["cost"], None)).fit(Xc)
+        sc = LocalAnomalyScore(make_cost(case["cost"], None, case.get("extra"))).fit(Xc)
     want, scales = [], []
     for s, a, b, e in cuts:
         parts = evaluate_or_none(fresh, [[s, e], [a, b]])
         pooled = np.concatenate((X[s:a], X[b:e]))
-        pc = make_cost(case["cost"], None).fit(pooled)
+        pc = make_cost(case["cost"], None, case.get("extra")).fit(pooled)
         parts += evaluate_or_none(pc, [[0, len(pooled)]])
         if any(x is None for x in parts):
             want.append(None)
